@@ -415,3 +415,94 @@ Section AnalyzeLemmas.
       + apply Hne. eapply Hpi; [exact Hin' | exact Hin | right; reflexivity].
   Qed.
 End AnalyzeLemmas.
+
+(* ---------------------------------------------------------------------------------------------- *)
+(* repeated symbols (a file included more than once) are ignored by the analysis                  *)
+Lemma sym_eqb_spec a b : sym_eqb a b = true <-> a = b.
+Proof.
+  destruct a as [f l lb v], b as [f' l' lb' v']. unfold sym_eqb; simpl. split.
+  - intro H. apply andb_true_iff in H as [H H4]. apply andb_true_iff in H as [H H3]. apply andb_true_iff in H as [H1 H2].
+    apply str_eqb_spec in H1, H3, H4. apply N.eqb_eq in H2. congruence.
+  - intro H; inversion H; subst. rewrite !(proj2 (str_eqb_spec _ _) eq_refl), N.eqb_refl. reflexivity.
+Qed.
+
+Lemma dset_same {K V} (eqb : K -> K -> bool) k (v : V) d : dget eqb k d = Some v -> dset eqb k v d = d.
+Proof.
+  induction d as [|[k' v'] d IH]; simpl; [discriminate|].
+  destruct (eqb k k'); intro H; [inversion H; reflexivity | rewrite IH by assumption; reflexivity].
+Qed.
+
+Lemma fold_res_app {S X} (f : S -> X -> res S) a b : forall st,
+  fold_res f st (a ++ b) = match fold_res f st a with Ok st' => fold_res f st' b | ParseErr fl ln => ParseErr fl ln | Crash => Crash end.
+Proof. induction a as [|x a IH]; intro st; simpl; [reflexivity|]. destruct (f st x); [apply IH | reflexivity | reflexivity]. Qed.
+
+Lemma defs_of_In {R} (cls : symbol -> classified R) syms s n r :
+  In s syms -> cls s = CDef n r -> In (n, r) (defs_of cls syms).
+Proof.
+  induction syms as [|x syms IH]; simpl; [intros []|]. intros [->|Hin] Hc.
+  - rewrite Hc. left; reflexivity.
+  - destruct (cls x); try (apply IH; assumption). right; apply IH; assumption.
+Qed.
+
+Section Repeat.
+  Context {R : Type} (reqb : R -> R -> bool) (reqb_spec : forall a b, reqb a b = true <-> a = b).
+  Context (upper : str -> str) (cls : symbol -> classified R).
+
+  (* a definition already in the binding is accepted again and changes nothing *)
+  Lemma check_store_absorbed st defs n r :
+    PInv reqb upper st defs -> In (n, r) (info st) -> check_store reqb upper st n r = Some st.
+  Proof.
+    intros [Hnd Hex Hfwd Hncm Hrtn] Hin. destruct (Hfwd _ _ Hin) as [Hc Hr].
+    pose proof (In_dget _ str_eqb_spec _ _ _ Hnd Hin) as Hi.
+    unfold check_store. rewrite Hc, Hi, Hr. unfold differs.
+    rewrite (proj2 (str_eqb_spec n n) eq_refl), (proj2 (reqb_spec r r) eq_refl). simpl.
+    rewrite (dset_same _ _ _ _ Hc), (dset_same _ _ _ _ Hi), (dset_same _ _ _ _ Hr). destruct st; reflexivity.
+  Qed.
+
+  (* symbols of an accepted prefix are skipped or recognised definitions *)
+  Lemma pass_ok_cls syms : forall st st', fold_res (run_pass upper reqb cls) st syms = Ok st' ->
+    forall s, In s syms -> cls s = CSkip \/ exists n r, cls s = CDef n r.
+  Proof.
+    induction syms as [|x syms IH]; simpl; intros st st' H s Hin; [contradiction|].
+    unfold run_pass in H at 1. destruct Hin as [->|Hin].
+    - destruct (cls s) as [| | |n r]; try discriminate; [left; reflexivity | right; exists n, r; reflexivity].
+    - destruct (cls x) as [| | |n r]; try discriminate; [eapply IH; eassumption|].
+      destruct (check_store reqb upper st n r); [eapply IH; eassumption | discriminate].
+  Qed.
+
+  Lemma pass_repeat pre s post st defs : PInv reqb upper st defs -> In s pre ->
+    fold_res (run_pass upper reqb cls) st (pre ++ s :: post) = fold_res (run_pass upper reqb cls) st (pre ++ post).
+  Proof.
+    intros Hinv Hin. rewrite !fold_res_app.
+    destruct (fold_res (run_pass upper reqb cls) st pre) as [st1| |] eqn:E; try reflexivity.
+    simpl. replace (run_pass upper reqb cls st1 s) with (Ok st1); [reflexivity|].
+    pose proof (pass_ok reqb reqb_spec upper cls pre _ _ _ Hinv E) as Hinv1.
+    unfold run_pass. destruct (pass_ok_cls pre _ _ E s Hin) as [Hc|(n & r & Hc)]; rewrite Hc; [reflexivity|].
+    rewrite (check_store_absorbed _ _ n r Hinv1); [reflexivity|].
+    apply (pi_exact _ _ _ _ Hinv1). apply in_app_iff. right. eapply defs_of_In; eassumption.
+  Qed.
+End Repeat.
+
+Lemma analyze_repeat upper pre s post : In s pre ->
+  analyze upper (pre ++ s :: post) = analyze upper (pre ++ post).
+Proof.
+  intro Hin. unfold analyze, extract_data, extract_par.
+  rewrite (pass_repeat N.eqb N.eqb_eq upper (classify_data upper) pre s post _ _ (pinit_inv N.eqb upper) Hin).
+  destruct (fold_res (run_pass upper N.eqb (classify_data upper)) pinit (pre ++ post)) as [st| |]; try reflexivity.
+  rewrite (pass_repeat desc_eqb desc_eqb_spec upper _ pre s post _ _ (pinit_inv desc_eqb upper) Hin). reflexivity.
+Qed.
+
+Lemma analyze_dedup_from upper l : forall pre seen, (forall x, In x seen <-> In x pre) ->
+  analyze upper (pre ++ dedup_from seen l) = analyze upper (pre ++ l).
+Proof.
+  induction l as [|s l IH]; intros pre seen Hs; simpl; [reflexivity|].
+  destruct (existsb (sym_eqb s) seen) eqn:E.
+  - apply existsb_exists in E as (x & Hx & Hsx). apply sym_eqb_spec in Hsx; subst x.
+    rewrite (analyze_repeat upper pre s l) by (apply Hs; assumption). apply IH; assumption.
+  - change (pre ++ s :: dedup_from (s :: seen) l) with (pre ++ [s] ++ dedup_from (s :: seen) l).
+    change (pre ++ s :: l) with (pre ++ [s] ++ l). rewrite !app_assoc. apply IH.
+    intro x. simpl. rewrite in_app_iff, Hs. simpl. tauto.
+Qed.
+
+Lemma analyze_dedup upper l : analyze upper (dedup_syms l) = analyze upper l.
+Proof. apply (analyze_dedup_from upper l [] []). tauto. Qed.
